@@ -5,12 +5,15 @@
 //! H2 puts the opening of input files behind a seam so that a simulator can decide how the
 //! bytes of a file argument are delivered (short reads, interruptions, failures). When no
 //! opener is set, or the opener declines a path, the file is opened as shipped.
+//! H3 puts the listing of a directory argument behind a seam so that a simulator can decide
+//! the order of the entries and make the listing fail (when opened, or at any entry). When
+//! no lister is set, or the lister declines a path, the directory is listed as shipped.
 #![allow(deprecated)]
 
 use std::cell::{Cell, RefCell};
 use std::fs::File;
 use std::io::Read;
-use std::path::Path;
+use std::path::{Path, PathBuf};
 use std::collections::hash_map::{DefaultHasher, RandomState};
 use std::hash::{BuildHasher, Hasher, SipHasher};
 
@@ -103,4 +106,39 @@ pub fn open_input_file(path: &Path) -> std::io::Result<InputFile> {
         Some(r) => r.map(InputFile::Simulated),
         None => File::open(path).map(InputFile::Real),
     }
+}
+
+/// What a simulated directory listing yields: the full path of each entry, or the failure
+/// to read that entry.
+pub type DirEntries = Box<dyn Iterator<Item = std::io::Result<PathBuf>>>;
+
+/// Decides how a directory is listed: `None` means "list the real directory".
+pub type DirLister = Box<dyn Fn(&Path) -> Option<std::io::Result<DirEntries>>>;
+
+thread_local! {
+    static DIR_LISTER: RefCell<Option<DirLister>> = const { RefCell::new(None) };
+}
+
+/// Set (or clear) the lister consulted for directories listed afterwards on this thread.
+pub fn set_dir_lister(lister: Option<DirLister>) {
+    DIR_LISTER.with(|l| *l.borrow_mut() = lister);
+}
+
+/// Stands in for `std::fs::DirEntry`: all jawk asks of an entry is its path.
+pub struct DirEntry(PathBuf);
+
+impl DirEntry {
+    pub fn path(&self) -> PathBuf {
+        self.0.clone()
+    }
+}
+
+/// Stands in for `std::fs::read_dir` (same shape: a fallible open, then fallible entries).
+pub fn read_dir(path: &Path) -> std::io::Result<impl Iterator<Item = std::io::Result<DirEntry>>> {
+    let simulated = DIR_LISTER.with(|l| l.borrow().as_ref().and_then(|list| list(path)));
+    let entries: DirEntries = match simulated {
+        Some(r) => r?,
+        None => Box::new(std::fs::read_dir(path)?.map(|e| e.map(|e| e.path()))),
+    };
+    Ok(entries.map(|e| e.map(DirEntry)))
 }
